@@ -14,6 +14,7 @@ import (
 	"io"
 	"os"
 	"regexp"
+	"regexp/syntax"
 	"sort"
 	"strings"
 	"unicode/utf8"
@@ -200,7 +201,6 @@ func compile(patterns []string, mode Mode) (*regexp.Regexp, error) {
 		if i > 0 {
 			b.WriteByte('|')
 		}
-	Pattern:
 		for pat != "" {
 			r, w := utf8.DecodeRuneInString(pat)
 			switch r {
@@ -233,7 +233,7 @@ func compile(patterns []string, mode Mode) (*regexp.Regexp, error) {
 					switch r {
 					case utf8.RuneError:
 						if w == 0 {
-							break Pattern
+							return nil, &syntax.Error{Code: syntax.ErrMissingBracket, Expr: patterns[i]}
 						}
 						b.WriteString(pat[:w])
 					case '[':
@@ -243,7 +243,7 @@ func compile(patterns []string, mode Mode) (*regexp.Regexp, error) {
 						switch r {
 						case utf8.RuneError:
 							if w == 0 {
-								break Pattern
+								return nil, &syntax.Error{Code: syntax.ErrMissingBracket, Expr: patterns[i]}
 							}
 							b.WriteString(pat[:w])
 						case '.', '=', ':':
@@ -270,7 +270,7 @@ func compile(patterns []string, mode Mode) (*regexp.Regexp, error) {
 						case utf8.RuneError:
 							b.WriteByte('\\')
 							if w == 0 {
-								break Pattern
+								return nil, &syntax.Error{Code: syntax.ErrMissingBracket, Expr: patterns[i]}
 							}
 							b.WriteString(pat[:w])
 						case '!', '-', '[', ']', '^', '\\':
@@ -290,7 +290,7 @@ func compile(patterns []string, mode Mode) (*regexp.Regexp, error) {
 				case utf8.RuneError:
 					b.WriteByte('\\')
 					if w == 0 {
-						break Pattern
+						return nil, &syntax.Error{Code: syntax.ErrTrailingBackslash, Expr: patterns[i]}
 					}
 					b.WriteString(pat[:w])
 				case '\\', '.', '+', '*', '?', '(', ')', '|', '[', ']', '{', '}', '^', '$':
